@@ -69,7 +69,8 @@ def main():
 
     LIMIT = 150
     limited = set()         # job numbers run under DATABYTES = LIMIT
-    shortw = {}             # job number -> (k, what): the daemon's k-th call is cut short / fails
+    shortw = {}             # job number -> (k, what): the daemon's k-th call is cut short
+    faultj = {}             # job number -> (k, errno): the daemon's k-th call fails
 
     def session(job):
         idx, stream, cap = job
@@ -79,6 +80,8 @@ def main():
             env["DATABYTES"] = str(LIMIT)
         if idx in shortw:
             env.update({"VERIF_TRACE": ck.scratch.path("sw.trace"), "VERIF_FAULT": "%d:%s" % shortw[idx], "VERIF_FAULT_PROG": "qmail-smtpd"})
+        if idx in faultj:
+            env.update({"VERIF_TRACE": ck.scratch.path("sw.trace"), "VERIF_FAULT": "%d:%s" % faultj[idx], "VERIF_FAULT_PROG": "qmail-smtpd"})
         if cap:
             env["VERIF_READCAP"] = str(cap)
         out, rc, to = sessions.run_daemon([tree.bin("qmail-smtpd")], PRE + bytes(stream), env, cwd=tree.root)
@@ -138,6 +141,12 @@ def main():
             for what in ("short1", "short700"):
                 jobs.append((big, 0))
                 shortw[len(jobs)] = (k, what)
+        # the same long stream with each call of the daemon in turn FAILING (descriptor table full, no memory): whatever it answers,
+        # once it has said 354 the lines of the message are not commands
+        for k in range(3, 40 if not thorough else 70):
+            for what in ("24", "12"):
+                jobs.append((big + list(b"NOOP\r\n"), 0))
+                faultj[len(jobs)] = (k, what)
         # the same long stream with every network read cut to just below, at and around the size of the daemon's input buffer
         # (1024) and its halves: the input routine moves what it has read to the end of its buffer, by one byte or by many
         for cap in (1023, 1022, 1021, 1000, 1024, 1025, 513, 512, 511, 255, 100, 31):
@@ -174,6 +183,12 @@ def main():
             hung += 1
         reps = sessions.smtp_replies(out)
         codes = [c for c, _ in reps]
+        if idx in faultj:
+            qf = qrecs.get("s%d" % idx, [])
+            recs.append({"s": stream, "cap": cap, "res": "fault", "msg": [], "q": 1 if (qf and sessions.parse_envelope(qf[0]["env"])[2]) else 0, "nlf": 1, "rc": rc,
+                         "orig": [-1], "lim": 0, "aft": codes[4:] if codes[:4] == [220, 250, 250, 250] else [-1]})
+            ck.count(("fault",) + faultj[idx], nontrivial=True)
+            continue
         if codes[:5] != [220, 250, 250, 250, 354]:
             if not cap and idx not in shortw:
                 raise Infra("session preamble failed: %r" % out[:300])
